@@ -571,6 +571,12 @@ pub open spec fn key_among<Sz, N, Sy, C, B>(cells: Map<Sz, Cell<Sz, N, Sy, C, B>
             && (v is Some ==> exists|p: int| 0 <= p < flat.len() && #[trigger] assoc_value(cells, flat[p], sym) == v)
 }
 
+/// C16 for concatenations: `v` is item `k` of the flat sequence of the concatenation's items, 'no item' when `k` is past its end
+pub open spec fn flat_item_at<Sz, N, Sy, C, B>(cells: Map<Sz, Cell<Sz, N, Sy, C, B>>, addr: Sz, k: int, v: Option<Sz>) -> bool {
+    forall|fuel: nat| #![trigger walk(cells, seq![addr], false, fuel)]
+        walk(cells, seq![addr], false, fuel) matches Some(flat) ==> v == (if 0 <= k < flat.len() { Some(flat[k]) } else { None::<Sz> })
+}
+
 /// C12: the order of two lengths
 pub open spec fn nat_cmp(a: nat, b: nat) -> Ordering {
     if a < b { Ordering::Less } else if a == b { Ordering::Equal } else { Ordering::Greater }
@@ -1133,6 +1139,7 @@ pub trait GarnishData: Sized {
             forall|a: Self::Number, b: Self::Number, c: Self::Number| #![auto] Self::is_idx(a) && Self::is_idx(b) && a.plus_spec(b) == Some(c) ==> Self::is_idx(c) && Self::nidx(c) == Self::nidx(a) + Self::nidx(b),
             forall|s: Self::Size| #![auto] Self::is_idx(<Self::DataFactory as GarnishDataFactory<Self::Size, Self::Number, Self::Char, Self::Byte, Self::Symbol, Self::Error, Self::SizeIterator, Self::NumberIterator>>::size_to_number_spec(s)),
             forall|a: Self::Number, b: Self::Number| #![auto] Self::is_idx(a) && Self::is_idx(b) ==> Self::num_cmp(a, b) == Some(nat_cmp(Self::nidx(a) as nat, Self::nidx(b) as nat)),
+            forall|a: Self::Number, b: Self::Number| #![auto] Self::is_idx(a) && Self::is_idx(b) ==> Self::num_eq(a, b) == (Self::nidx(a) == Self::nidx(b)),
             // Number constants / conversions as indices
             forall|c: Self::Number| #![auto] call_ensures(<Self::Number as TypeConstants>::zero, (), c) ==> c == Self::num_zero(),
             forall|c: Self::Number| #![auto] call_ensures(<Self::Number as TypeConstants>::one, (), c) ==> c == Self::num_one(),
